@@ -18,16 +18,21 @@ def bits(x):
     return np.asarray(x).tobytes()
 
 
+class StopRun(Exception):
+    """raised by the observer to bound the cost of a generated run (the blocks seen so far are still judged)"""
+
+
 class Observer(ConvergenceController):
     """Snapshots every finished block *before* any other controller prepares the next one (control order -1000).
     Data goes to the shared list Observer.blocks (reset by the harness before each run)."""
 
     blocks = []
-    attempts = []
+    max_blocks = None
 
     @classmethod
-    def reset(cls):
+    def reset(cls, max_blocks=None):
         cls.blocks = []
+        cls.max_blocks = max_blocks
 
     def setup(self, controller, params, description, **kwargs):
         return {'control_order': -1000, **super().setup(controller, params, description, **kwargs)}
@@ -60,6 +65,8 @@ class Observer(ConvergenceController):
                 }
             )
         type(self).blocks.append(blk)
+        if type(self).max_blocks is not None and len(type(self).blocks) >= type(self).max_blocks:
+            raise StopRun()
 
 
 class Inject(ConvergenceController):
